@@ -299,6 +299,9 @@ def handle (s : St) (line : String) : St :=
       let s := s.spec "C15" "noPanic" (res != "panic") line
       -- C15 "always ends": the consumer of an unbuffered channel that writes to the log between receives
       let s := s.spec "C15" "ends" (res != "hang") line
+      -- C13: a consumer that has not drained its iteration must not block a writer on the same log (the iteration
+      -- works on what it read under the lock; the lock is not held while entries are delivered)
+      let s := s.spec "C13" "deliveryOutsideLock" (res != "hang") line
       match iterator rep.log o with
       | .errLTE => if res == "err:lte" then s else s.diff "iter.result" "err:lte" res
       | .errLT => if res == "err:lt" then s else s.diff "iter.result" "err:lt" res
